@@ -14,6 +14,11 @@ def run_threaded(mod, shard, out_path, n):
     """Run the shard's workload in n threads at once (same inputs, pure reference oracles) and merge."""
     import threading  # noqa: PLC0415
 
+    from vf import judge  # noqa: PLC0415
+
+    # the package is imported once, by the main thread, as a program would do; the threads' first *calls*
+    # are still a cold concurrent start
+    judge.lib()
     sys.setswitchinterval(1e-6)
     # n threads share one GIL: run the copy with workload sizes scaled down (this process only)
     sizes = getattr(mod, "SIZES", None)
